@@ -26,11 +26,18 @@ LEVEL_TEXT = ("Proof: the line-by-line decoder of catalog-forecast CSV files (st
               "forecasts with hundreds of catalogs through all three public loaders. Text layer: the loader is also modelled "
               "from the CHARACTERS of the file (csv state machine, float(), int(), the two strptime formats, header test) and "
               "proved to be the row-level decoder on what the records read as, so the decode theorem holds for the text; "
-              "every file is given to that model as bytes.")
-LEVEL_NOTE = ("csv tokenisation, float(), int() and strptime parsing of the fields are MODELLED (Model/CatalogText.lean, "
-              "Model/DecimalText.lean) for ASCII text without line breaks inside quoted fields and compared with Python on every "
-              "file and on separate token / record / time-string streams; non-ASCII digits, inf / nan words and the sign of a "
-              "zero are outside the model. The harness also checks the parsed values against the generating events exactly.")
+              "every file is given to that model as bytes. Round 4: the generator consumed lazily (stream: what a consumer "
+              "has received when the generator ends or raises) agrees with the decoder on every file that loads, and for a "
+              "well-formed file of n catalogs followed by a row with a smaller id delivers exactly the catalogs 0..n-2 and then "
+              "the ValueError (stream_encode_then_decreasing, any n / events / gaps); csv records that span physical lines "
+              "(quoted fields with line breaks; csvML) are modelled and proved to extend the line-by-line reader, so the decode "
+              "theorem holds for such texts; the option handling of the two public loaders is modelled.")
+LEVEL_NOTE = ("csv tokenisation (incl. quoted fields that contain line breaks), float(), int() and strptime parsing of the fields "
+              "are MODELLED (Model/CatalogText.lean, Model/CatalogStream.lean, Model/DecimalText.lean) for ASCII text and compared "
+              "with Python on every file and on separate token / record / text / time-string streams; non-ASCII digits, inf / nan "
+              "words and the sign of a zero are outside the model. The CSEPCatalog constructor (tuples -> structured array with "
+              "an 'S256' id column) is not modelled: event ids are ASCII and at most 256 bytes in the generated files (see "
+              "EXCLUDED_INPUT_CLASSES). The harness also checks the parsed values against the generating events exactly.")
 DESIGN_REF = "DESIGN.md §4 C12"
 TECHNIQUE = "exact-layer state-machine model + induction over the encoded catalogs; exhaustive-small and random correspondence"
 
@@ -43,7 +50,23 @@ THEOREMS = ["AsciiCatalogs.decode_encode", "AsciiCatalogs.decode_encode_length",
             "AsciiCatalogs.readRow_bad_id", "AsciiCatalogs.header_reads_as_header", "AsciiCatalogs.explicit_meta_wins",
             "AsciiCatalogs.meta_from_filename", "AsciiCatalogs.exRow_readsAs",
             "AsciiCatalogs.csvAux_inField_plain", "AsciiCatalogs.csvAux_startField_plain", "AsciiCatalogs.csvAux_join",
-            "AsciiCatalogs.csvFields_join"]
+            "AsciiCatalogs.csvFields_join",
+            # round 4 (Properties/C12_Stream.lean): the generator consumed lazily, records that span lines, option handling
+            "AsciiCatalogs.loop_eq_yields", "AsciiCatalogs.stream_ok_iff", "AsciiCatalogs.stream_error_iff",
+            "AsciiCatalogs.yields_append", "AsciiCatalogs.stream_before_error", "AsciiCatalogs.stream_encode_then_decreasing",
+            "AsciiCatalogs.yieldsFields_eq_yields", "AsciiCatalogs.streamFields_eq_stream",
+            "AsciiCatalogs.loopFields_eq_yieldsFields", "AsciiCatalogs.streamTextML_ok_iff", "AsciiCatalogs.csvAux_eq_scan",
+            "AsciiCatalogs.splitLinesT_fst", "AsciiCatalogs.csvML_of_lines", "AsciiCatalogs.csvRecordsML_eq",
+            "AsciiCatalogs.decodeTextML_eq_decodeText", "AsciiCatalogs.decodeTextML_encode",
+            "AsciiCatalogs.decodeTextML_encode_records", "AsciiCatalogs.ses_reaches_decoder_iff",
+            "AsciiCatalogs.cf_builds_forecast_iff"]
+# input classes on which the UNCHANGED code does not return the written event id, kept out of the generators (see notes/C12.md,
+# "Genuine-defect candidates")
+EXCLUDED_INPUT_CLASSES = [
+    "event ids with non-ASCII characters: the CSEPCatalog constructor stores ids in an 'S256' column; numpy encodes str -> bytes "
+    "as ASCII and raises UnicodeEncodeError for the whole catalog",
+    "event ids longer than 256 bytes: silently truncated to 256 bytes by the 'S256' column",
+]
 TRUSTED = ["Lean 4.33 kernel", "axioms: propext, Classical.choice, Quot.sound at most",
            "csv.reader tokenisation, float(), int() and datetime.strptime are modelled (decodeText) and compared with Python on "
            "every run; the CSEPCatalog constructor (list of tuples -> structured array) is not modelled; the harness compares "
@@ -51,7 +74,8 @@ TRUSTED = ["Lean 4.33 kernel", "axioms: propext, Classical.choice, Quot.sound at
            "that every non-repr spelling reads as the intended double is checked at generation)",
            "csv.writer as the definition of how a field containing the delimiter, a quote or blanks is written (quoted, "
            "quotes doubled); TZ + time.tzset() as the way to give the process a local time zone",
-           "the generator protocol: the model returns the list of everything yielded, an exception discards it",
+           "the generator protocol is modelled (yields / stream: what a lazy consumer has received before the end or the "
+           "exception); CatalogForecast.__next__ (C13) is observed through the walks",
            "harness/c12.py generators, file writer and comparison; driver parsing (Proto.lean, Drive/C12.lean)"]
 RULE = ("exhaustive: every forecast of n <= 5 catalogs with 0..2 events each x every placeholder/omitted choice for each "
         "empty non-final catalog x header on/off (2046 files, fresh random events per file; n <= 6, 8190 files, in the "
@@ -71,7 +95,12 @@ RULE = ("exhaustive: every forecast of n <= 5 catalogs with 0..2 events each x e
         "number; 3/4 of the files carry one of 13 file-name shapes (name_<time>.csv and near misses) that must not change the "
         "catalogs; 5 % of origin times sit at / next to the epoch (epoch ms 0, -1, 1) and 3 % of events have every field "
         "zero; every file is also given to the text-level model as bytes (c12_text); 400 csv lines and 400 time strings "
-        "against csv.reader / strptime, ~1600 decimal tokens against float() / int(). A case "
+        "against csv.reader / strptime, ~1600 decimal tokens against float() / int(). Round 4: files that must be rejected are "
+        "consumed LAZILY through all three loaders: the catalogs received before the exception must be the leading catalogs of "
+        "the file and a prefix of what the model's lazy consumer receives (c12_stream; an eager validation is as good); event "
+        "ids with line breaks (LF, CRLF, CR, consecutive, next to quotes and commas: records that span physical lines); 200 "
+        "random multi-line texts against csv.reader (c12_csvml); 120 option combinations of load_stochastic_event_sets (type x "
+        "format) and load_catalog_forecast (existence x loader kind x format x type) against sesDispatch / cfDispatch. A case "
         "is non-trivial when the file has >= 2 catalogs and at least one empty catalog or is a rejection case; distinct by "
         "the sha1 of the file text")
 
@@ -168,7 +197,9 @@ _IDCH = "abcdefghijklmnopqrstuvwxyzABCDEFGHIJKLMNOPQRSTUVWXYZ0123456789_"
 _IDCH_Q = ',,"" ;\'abcXYZ019._-#|~:/'
 SPECIAL_IDS = ["ci38457511,us7000abcd", 'the "big" one', ",", '"', '""', " ", "a b", " a", "a ", "a,b,c", '"a"', '"a,b"',
                'a""b', ",,", '",', ',"', "a;b", "lon", "lon,lat", "1,5", "1.5", "1e5", "-1", "None", "x~y", "a|b", "#x",
-               "us7000abcd,ci38457511,nc73649170", "it's", "0,0,0,0,0,0,0", ',,,,,3,']
+               "us7000abcd,ci38457511,nc73649170", "it's", "0,0,0,0,0,0,0", ',,,,,3,',
+               # ids that contain a line break: csv writes them as quoted fields that span physical lines
+               "a\nb", "line1\r\nline2", "\n", "x\n", "\ny", '"\n"', "a\rb", "two\n\nbreaks", ",\n,", "1,2\n3,4,5,6,7,8,9"]
 
 
 def _spell(rng, x):
@@ -234,7 +265,14 @@ def _mid(eid):
 
 
 def _csv_line(fields, quoting):
-    """one record as csv.writer writes it. quoting: minimal (only where needed) | all | id (id field always quoted)"""
+    """one record as csv.writer writes it. quoting: minimal (only where needed) | all | id (id field always quoted).
+    A field that contains a line break is always quoted (csv.writer of Python >= 3.13 does so whatever the line
+    terminator is; 3.12 only for characters of its own lineterminator): the record then spans several physical lines."""
+    if any("\n" in f or "\r" in f for f in fields):
+        def q(k, f):
+            need = quoting == "all" or (quoting == "id" and k == len(fields) - 1) or any(ch in f for ch in ',"\r\n')
+            return '"' + f.replace('"', '""') + '"' if need else f
+        return ",".join(q(k, f) for k, f in enumerate(fields))
     buf = io.StringIO()
     if quoting == "id":
         csv.writer(buf, lineterminator="").writerow(fields[:-1])
@@ -348,10 +386,29 @@ def _load(path, which, walk="plain", csep_format=False):
         if a != b:
             raise WalkError(f"walk {walk}: the first pass (look at {len(seen)} + rest) gave {a[:300]} but reading the forecast "
                             f"again gave {b[:300]}")
-        if fore.n_cat != len(first):
-            raise WalkError(f"walk {walk}: n_cat = {fore.n_cat!r} after reading {len(first)} catalogs")
+        # (n_cat after a full pass is C13's subject: not judged here)
         return first
     return list(csep.load_stochastic_event_sets(path, **fmt))
+
+
+def _lazy(path, which, csep_format=False):
+    """the loader consumed one catalog at a time: (canonical forms of the catalogs received, class of the exception or None)"""
+    import csep
+    from csep.core.catalogs import CSEPCatalog
+    fmt = dict(format="csep") if csep_format else {}
+    got, err = [], None
+    try:
+        if which == "load_ascii_catalogs":
+            it = CSEPCatalog.load_ascii_catalogs(path)
+        elif which == "load_catalog_forecast":
+            it = csep.load_catalog_forecast(path, **fmt)
+        else:
+            it = csep.load_stochastic_event_sets(path, **fmt)
+        for c in it:
+            got.append(_canon_loaded([c])[3:])
+    except Exception as e:
+        err = type(e).__name__
+    return got, err
 
 
 def _impl(path, which, walk="plain", csep_format=False):
@@ -418,6 +475,8 @@ def check_case(ctx, spec, tag, loaders=LOADERS):
                     run.count("numeric field in exponent notation (repr)")
             if any(ch in e[6] for ch in ',"') or e[6] != e[6].strip():
                 run.count("event id needing csv quoting / with blanks")
+            if "\n" in e[6] or "\r" in e[6]:
+                run.count("event id with a line break (record spans physical lines)")
     want = None if expected is None else _canon_expected(expected)
     outs = {}
     walk = spec.get("walk") or WALKS[int(case["sha1"][:6], 16) % len(WALKS)]
@@ -425,19 +484,50 @@ def check_case(ctx, spec, tag, loaders=LOADERS):
     csep_format = int(case["sha1"][6:8], 16) % 4 == 0      # a quarter of the files: format='csep' in the two top-level loaders
     if csep_format:
         run.count("format='csep'")
+    lazy = {}
+    want_cats = [] if expected is not None else _canon_expected(
+        [[i, [[e[6], e[4], e[1], e[0], e[5], e[2]] for e in c]] for i, c in enumerate(spec["cats"])])[3:].split(";")
     for which in loaders:
         with local_zone(zone):
-            got = _impl(path, which, walk, csep_format)
+            if expected is None:
+                # a file that must be rejected is consumed LAZILY: what arrives before the exception is recorded
+                seen, err = _lazy(path, which, csep_format)
+                got = "err:" + err if err else "ok:" + ";".join(seen)
+                lazy[which] = seen
+                run.count("lazy consumption: catalogs received before the rejection", len(seen))
+                # every catalog COMPLETED before the offending row and delivered is the file's catalog with that id; whether
+                # anything else is delivered between the offending row and the exception is not for this property
+                ids_ = [int(r[5]) for r in build_rows(dict(spec, header=False, mutation=None))[0]]
+                kbad = spec["mutation"][1]
+                done = ids_[kbad - 1] if 0 < kbad <= len(ids_) else 0      # catalogs 0 .. id of the predecessor row - 1
+                run.count("lazy consumption: " + ("exactly the completed catalogs" if len(seen) == done else
+                                                  ("fewer (eager rejection)" if len(seen) < done else "more than the completed catalogs")))
+                seen = seen[:done]
+                lazy[which] = seen
+                if seen != want_cats[:len(seen)]:
+                    run.oracle_failure(full_case, f"{which}: consumed lazily, the catalogs delivered before the rejection are "
+                                                  f"not the leading catalogs of the file: got {';'.join(seen)[:300]} expected a "
+                                                  f"prefix of {';'.join(want_cats)[:300]}")
+            else:
+                got = _impl(path, which, walk, csep_format)
         outs[which] = got
         if got.startswith("walk:"):
             run.oracle_failure(full_case, f"{which}: {got[5:]}")
             outs.pop(which)
             continue
         if expected is None:
-            if not got.startswith("err:"):
-                run.oracle_failure(full_case, f"{which}: a file with decreasing catalog ids was accepted: {got[:300]}")
-            else:
+            if got.startswith("err:"):
                 run.count("reject-class-" + got[4:])
+            elif spec["mutation"][0] == "header_at":
+                # a second header line after the first data row: today's loader reads it as a data row and fails; the property
+                # speaks of decreasing ids only, so a loader that skips it is as good — provided it then delivers the file's catalogs
+                run.count("header line after the first row: accepted")
+                if got != "ok:" + ";".join(want_cats):
+                    run.oracle_failure(full_case, f"{which}: a stray header line was accepted but the catalogs delivered are not "
+                                                  f"the file's: {got[:300]}")
+                outs[which] = "tolerated"
+            else:
+                run.oracle_failure(full_case, f"{which}: a file with decreasing catalog ids was accepted: {got[:300]}")
         elif got != want:
             run.oracle_failure(full_case, f"{which}: loaded catalogs differ from the encoded ones: got {got[:400]} "
                                           f"expected {want[:400]}")
@@ -445,9 +535,10 @@ def check_case(ctx, spec, tag, loaders=LOADERS):
         _file_meta(ctx, path, spec)
     os.unlink(path)
     i = ctx.drv.ask("c12_decode " + (";".join(model) if model else "-"))
-    # the same file handed to the TEXT-level model as characters (csv state machine, float(), int(), strptime in Lean)
-    it = ctx.drv.ask("c12_text " + hexs(body))
-    ctx.pending.append((full_case, i, outs, it))
+    # the same file handed to the TEXT-level model as characters (csv state machine incl. records that span lines, float(),
+    # int(), strptime in Lean), consumed lazily: the catalogs yielded, then the end or the exception
+    it = ctx.drv.ask("c12_stream " + hexs(body))
+    ctx.pending.append((full_case, i, outs, it, lazy))
 
 
 def _file_meta(ctx, path, spec):
@@ -473,13 +564,26 @@ def _file_meta(ctx, path, spec):
 
 def flush(ctx):
     out = ctx.drv.run()
-    for case, i, outs, it in ctx.pending:
-        for tag, m in (("rows", out[i]), ("text", out[it])):
+    for case, i, outs, it, lazy in ctx.pending:
+        cats, _, end = out[it].rpartition("#")
+        mtext = ("ok:" + ("" if cats == "-" else cats)) if end == "end" else (end if end.startswith("err:") else "bad:" + out[it][:80])
+        for tag, m in (("rows", out[i]), ("text", mtext)):
             for which, got in outs.items():
+                if got == "tolerated":
+                    continue
                 same = (got == m) if m.startswith("ok:") else got.startswith("err:")
                 if not same:
                     ctx.run.mismatch(dict(case, loader=which, model=tag), got[:600], m[:600])
         ctx.run.count("text-level model asked")
+        if end.startswith("err:"):
+            # the lazy consumer of the implementation has received a prefix of what the model's lazy consumer receives
+            # (an implementation that validates the whole file before yielding anything is as good: shorter is allowed)
+            myield = [] if cats == "-" else cats.split(";")
+            for which, seen in lazy.items():
+                ctx.run.count("lazy consumption compared with the model")
+                seen = seen[:len(myield)]
+                if seen != myield[:len(seen)]:
+                    ctx.run.mismatch(dict(case, loader=which, model="stream"), ";".join(seen)[:600], out[it][:600])
     for j, name, us, cname, kept, fname in ctx.meta:
         m = out[j]
         want = (None, None) if m == "none" else (c11_text.unhexs(m.split(",")[0]), int(m.split(",")[1]))
@@ -504,6 +608,17 @@ def _field_stream(run, rng, n):
         closed = len(rec) == 2 and rec[1] == ["Z"]
         want = "none" if not closed else ("empty" if not rec[0] else ",".join(hexs(f) for f in rec[0]))
         asks.append(("csv", line, want, drv.ask("c12_csv " + hexs(line))))
+    # whole texts through csv.reader as load_ascii_catalogs uses it (file opened with newline=''): a quoted field may contain
+    # line breaks, the record then spans physical lines; an open quoted field is closed at the end of the input
+    alphabet2 = alphabet + ["\n", "\n", "\r\n", "\r", '"\n', '\n"', "\n\n"]
+    for _ in range(n // 2):
+        text = "".join(rng.choice(alphabet2) for _ in range(rng.randint(0, 14)))
+        try:
+            recs = list(csv.reader(io.StringIO(text, newline=""), delimiter=","))
+            want = ";".join("empty" if not r else ",".join(hexs(f) for f in r) for r in recs) if recs else "norecords"
+        except csv.Error:
+            want = "error"
+        asks.append(("csv-text", text, want, drv.ask("c12_csvml " + hexs(text))))
     good = ["%Y-%m-%dT%H:%M:%S.%f", "%Y-%m-%dT%H:%M:%S"]
     for _ in range(n):
         ts, _ms = _time(rng)
@@ -532,9 +647,88 @@ def _field_stream(run, rng, n):
         asks.append(("time", ts, "none" if want is None else str(want), drv.ask("c12_time " + hexs(ts))))
     out = drv.run()
     for kind, text, want, i in asks:
-        run.count(f"field:{kind}:" + ("refused" if want == "none" else "read"))
+        run.count(f"field:{kind}:" + ("refused" if want in ("none", "error") else "read"))
         if out[i] != want:
             run.mismatch(dict(kind=f"field:{kind}", text=text), want, out[i])
+
+
+def _option_cases(run, rng, n):
+    """which calls of csep.load_stochastic_event_sets / csep.load_catalog_forecast are refused before a line is read and which
+    reach the decoder (csep/__init__.py:65-110, :478-521), against AsciiCatalogs.sesDispatch / cfDispatch; calls that reach
+    the decoder must deliver the catalogs of the file"""
+    import csep
+    from csep.core.catalogs import CSEPCatalog
+    d = tempfile.mkdtemp(prefix="verif_c12o_")
+    drv, asks = Driver(), []
+    body = "1.0,2.0,3.0,2020-01-01T00:00:00,4.0,0,a\n,,,,,1,\n1.5,2.5,3.5,2020-01-02T00:00:00.5,4.5,3,b\n"
+    want = "0|xa~1577836800000~2~1~4~3;1|;2|;3|xb~1577923200500~5/2~3/2~9/2~7/2".replace("xa", _mid("a")).replace("xb", _mid("b"))
+    try:
+        for k in range(n):
+            path = os.path.join(d, rng.choice(["f%d.csv" % k, "m_2020-01-01T00-00-00-0.csv", "f%d" % k]))
+            exists = rng.random() < 0.85
+            if exists:
+                with open(path, "w", newline="") as f:
+                    f.write(body)
+            if rng.random() < 0.5:
+                ty = rng.choice(["csv", "csv", "csv", "ascii", "CSV", "", "csep", "ucerf"])
+                fm = rng.choice(["native", "csep", "native", "Native", "zmap", "", "CSEP"])
+                case = dict(kind="option:load_stochastic_event_sets", type=ty, format=fm, exists=exists)
+                if not exists:
+                    continue
+                try:
+                    got = "delivered:" + _canon_loaded(list(csep.load_stochastic_event_sets(path, type=ty, format=fm)))[3:]
+                except Exception as e:
+                    got = "refused:" + type(e).__name__
+                asks.append((case, got, drv.ask(f"c12_ses {hexs(ty)} {hexs(fm)}")))
+            else:
+                lk = rng.choice(["none", "none", "callable", "notcallable"])
+                ty = rng.choice(["ascii", "ascii", "csv", "", "ASCII"])
+                fm = rng.choice(["native", "csep", "native", "other"])
+                called = []
+
+                def own(filename=None, **kw):
+                    called.append(sorted(kw))
+                    return CSEPCatalog.load_ascii_catalogs(filename, **kw)
+                arg = dict(none=None, callable=own, notcallable=rng.choice([3, "load_ascii_catalogs", [1]]))[lk]
+                case = dict(kind="option:load_catalog_forecast", type=ty, format=fm, exists=exists, loader=lk)
+                try:
+                    fore = csep.load_catalog_forecast(path, catalog_loader=arg, format=fm, type=ty)
+                    got = "forecast:" + ("own" if lk == "callable" else "default")
+                    cats = _canon_loaded([c for c in fore])[3:]
+                    if cats != want or (lk == "callable") != bool(called):
+                        run.oracle_failure(case, f"a call that was accepted did not deliver the catalogs of the file: {cats[:200]}")
+                except Exception as e:
+                    got = "refused:" + type(e).__name__
+                asks.append((case, got, drv.ask(f"c12_cf {1 if exists else 0} {lk} {hexs(fm)} {hexs(ty)}")))
+            if exists:
+                os.unlink(path)
+        out = drv.run()
+        for case, got, i in asks:
+            m = out[i]
+            run.count(case["kind"] + ":" + got.split(":")[0] + ":" + m.split(":")[0])
+            if m in ("csv-native", "csv-csep"):
+                ok = got == "delivered:" + want
+            elif m.startswith("ValueError"):
+                ok = got == "refused:ValueError"
+            elif m.startswith("forecast:"):
+                ok = got == ":".join(m.split(":")[:2])
+            elif m == "ucerf3":
+                ok = True
+            else:
+                ok = got == "refused:" + m
+            if not ok:
+                reaches = m in ("csv-native", "csv-csep") or m.startswith("forecast:")
+                if got.startswith("delivered:") and got != "delivered:" + want:
+                    run.oracle_failure(case, f"accepted, but the catalogs delivered are not the file's: {got[:300]}")
+                elif reaches:
+                    # a call that must reach the decoder is refused / served by another loader: the file is not loaded
+                    run.mismatch(case, got[:300], m)
+                else:
+                    # the model refuses (or says another exception class) and the implementation accepts and delivers the
+                    # right catalogs / refuses otherwise: option handling beyond the property, recorded only
+                    run.count("option handling differs from the model where the property is silent")
+    finally:
+        shutil.rmtree(d, ignore_errors=True)
 
 
 # ----------------------------------------------------------------------------- tiers
@@ -641,6 +835,7 @@ def run(run, rng, tier):
         # the text layer (float(), int(), repr) of the running Python against Model/DecimalText.lean
         run.extra["text_tokens_compared"] = c11_text.token_stream(run, rng, 600 if tier == "quick" else 8000)
         _field_stream(run, rng, 400 if tier == "quick" else 4000)
+        _option_cases(run, rng, 120 if tier == "quick" else 1200)
         # corpus first
         cdir = os.path.join(os.path.dirname(os.path.dirname(os.path.abspath(__file__))), "corpus", "C12")
         if os.path.isdir(cdir):
@@ -692,6 +887,10 @@ def replay(run, payload):
     case = payload["case"]
     if isinstance(case, dict) and case.get("kind") in c11_text.TOKEN_KINDS:
         c11_text.replay_token(run, case)
+        return
+    if isinstance(case, dict) and str(case.get("kind", "")).startswith("option:"):
+        import random
+        _option_cases(run, random.Random(payload.get("seed", 0)), 300)
         return
     if isinstance(case, dict) and str(case.get("kind", "")).startswith("field:"):
         import random
